@@ -12,7 +12,9 @@ import Acra.Gen.Src.Cls.iNetX
 import Acra.Gen.Src.Cls.PTPTime
 import Acra.Gen.Src.Cls.RTCTime
 import Acra.Gen.Src.Cls.UDP
+import Acra.Gen.Src.Cls.PcapRecord
 import Acra.Model.iNetX
+import Acra.Model.Pcap
 import Acra.Model.Ch11
 import Acra.Model.Net
 namespace Acra.Lemmas.SrcTieCls
@@ -136,5 +138,25 @@ theorem ofModel_toModel (o : Obj) (h : Dom o) : ofModel (toModel o) = o := by
   simp only [toModel, ofModel] at *
   simp only [Int.toNat_of_nonneg, h1, h2, h3]
 end UDP
+
+/-! ### PcapRecord (Pcap.py) — model `Model.Pcap.Rec`; the model's `payload` is the attribute `_payload` (seen through
+    the `payload` / `packet` properties); every attribute `__init__` assigns is carried -/
+namespace PcapRecord
+abbrev Obj := Gen.Src.Cls.PcapRecord.Obj
+def toModel (o : Obj) : Model.Pcap.Rec :=
+  { sec := o.sec.toNat, usec := o.usec.toNat, incl_len := o.incl_len.toNat, orig_len := o.orig_len.toNat,
+    payload := o._payload }
+def ofModel (s : Model.Pcap.Rec) : Obj :=
+  { sec := s.sec, usec := s.usec, incl_len := s.incl_len, orig_len := s.orig_len, _payload := s.payload }
+def Dom (o : Obj) : Prop := 0 ≤ o.sec ∧ 0 ≤ o.usec ∧ 0 ≤ o.incl_len ∧ 0 ≤ o.orig_len
+instance (o : Obj) : Decidable (Dom o) := by unfold Dom; infer_instance
+@[simp] theorem toModel_ofModel (s : Model.Pcap.Rec) : toModel (ofModel s) = s := by
+  cases s; simp [toModel, ofModel]
+theorem ofModel_toModel (o : Obj) (h : Dom o) : ofModel (toModel o) = o := by
+  obtain ⟨h1, h2, h3, h4⟩ := h
+  cases o
+  simp only [toModel, ofModel] at *
+  simp only [Int.toNat_of_nonneg, h1, h2, h3, h4]
+end PcapRecord
 
 end Acra.Lemmas.SrcTieCls
